@@ -314,6 +314,15 @@ def handle (j : Json) : Json :=
         | none => .other
       exceptJ scToJson (unpackSingleValue ((getInt it "pf").map Int.toNat) (getChars it "s") t))
     Json.mkObj [("ok", Json.arr outs.toArray)]
+  | some "toxml" =>
+    -- {"op":"toxml","items":[val…]}: module-level tocimxml(value); '%.17G'/'%.11G' through the concrete model fmtG
+    let rec vx : ValXml → Json
+      | .value t => Json.mkObj [("VALUE", optToJson cpsToJson t)]
+      | .valueNull => Json.str "NULL"
+      | .object => Json.str "OBJECT"
+      | .valueArray l => Json.mkObj [("ARRAY", Json.arr (l.map vx).toArray)]
+    Json.mkObj [("ok", Json.arr ((getArr j "items").map (fun vj =>
+      exceptJ vx (tocimxmlCfg (fmtG 17) (fmtG 11) Pywbem.Model.Utf8Decode.utf8Decode (parseVal vj)))).toArray)]
   | some "utf8" =>
     -- {"op":"utf8","items":[[byte…]…]} → [[cp…]|null]
     Json.mkObj [("ok", Json.arr ((getArr j "items").map (fun it =>
